@@ -173,7 +173,7 @@ def run(ctx):
         desc = lambda: {"method": method, "config": card["config"], "constraints": sorted(kinds), "param_key": [ctx.seed, i]}
         history = []
 
-        def one_fit(step, maxiter=None, start="near"):
+        def one_fit(step, maxiter=None, start="near", grad_scale=None):
             # start point: perturb the free parameters
             free = list(vm.trainable_vars)
             pstart = {}
@@ -203,10 +203,11 @@ def run(ctx):
             with quiet():
                 fcn0 = cfg.get_fcn([[data], [phsp], [None], None], batch=65000)
                 nll_start = float(fcn0({}))
-            ev = {"step": step, "method": method, "maxiter": maxiter, "start": start, "nll_start": nll_start}
+            ev = {"step": step, "method": method, "maxiter": maxiter, "start": start, "nll_start": nll_start, "grad_scale": grad_scale}
+            fit_opts = {} if grad_scale is None else {"grad_scale": grad_scale}
             try:
                 with quiet():
-                    r = cfg.fit(data=[data], phsp=[phsp], bg=[None], method=method, maxiter=maxiter, batch=65000)
+                    r = cfg.fit(data=[data], phsp=[phsp], bg=[None], method=method, maxiter=maxiter, batch=65000, **fit_opts)
             except Exception as e:
                 ctx.violation("fit returns a result", ctx.exc_witness(e, step=step, maxiter=maxiter, **desc()), mechanism="fit raises: method=%s" % method)
                 # leave a clean state for the next step
@@ -266,7 +267,10 @@ def run(ctx):
         full = 60 if method == "Nelder-Mead" else (150 if active_bound is not None else None)
         r1 = one_fit("first", maxiter=full, start="far" if i % 2 else "near")
         r2 = one_fit("early stop", maxiter=int(rng.choice([1, 3])), start="far")
-        r3 = one_fit("repeated", maxiter=full, start="near")
+        # the repeated fit with the documented scaling of the objective handed to the minimiser (grad_scale): the reported minimum is the NLL itself
+        gs_ = [None, 4.0, 0.25][(i // len(methods) + i) % 3]
+        ctx.covered("grad_scale", gs_)
+        r3 = one_fit("repeated", maxiter=full, start="near", grad_scale=gs_)
         last = r3 or r1
         # (8) file round trips into a freshly built model
         if last is not None:
